@@ -30,6 +30,23 @@ def law_pairs(r, base, obj, caps, base_vals):
     rr = r.randint(1, 3)
     out.append(('tile', Node('tile', (rr,), [clone(base)]),
                 clone(base) if rr == 1 else Node('concat', (), [clone(base) for _ in range(rr)])))
+    # Laws2.v: filters compose, filter distributes over concatenation, nested concatenations flatten, selections compose
+    p1 = r.choice([('PModEq', 2, 0), ('PLt', 4), ('PModEq', 3, 1), ('PModEq', 2, 1)])
+    p2 = r.choice([('PModEq', 2, 0), ('PLt', 6), ('PModEq', 3, 2), ('PModEq', 3, 0)])
+    out.append(('filter_filter', Node('filter', (('QP', p1), True), [Node('filter', (('QP', p2), True), [clone(base)])]),
+                lambda vals, p1=p1, p2=p2: [v for v in vals if F.py_p(p2)(v) and F.py_p(p1)(v)]))
+    out.append(('filter_concat', Node('filter', (('QP', p1), True), [Node('concat', (), [clone(base), clone(base)])]),
+                Node('concat', (), [Node('filter', (('QP', p1), True), [clone(base)]), Node('filter', (('QP', p1), True), [clone(base)])])))
+    out.append(('concat_flatten', Node('concat', (), [clone(base), Node('concat', (), [clone(base), clone(base)])]),
+                Node('concat', (), [clone(base), clone(base), clone(base)])))
+    if idx_ok and n >= 1:
+        jx = [r.randint(-n, n - 1) for _ in range(r.randint(1, n + 1))]
+        ix = [r.randint(-len(jx), len(jx) - 1) for _ in range(r.randint(1, len(jx) + 1))]
+        jj = [jx[x] for x in ix]
+        fm = lambda: r.choice(['list', 'tuple', 'array'])
+        out.append(('slice_slice', Node('get', (('ints', tuple(ix), fm()),), [Node('get', (('ints', tuple(jx), fm()),), [clone(base)])]),
+                    Node('get', (('ints', tuple(jj), fm()),), [clone(base)])))
+        out.append(('slice_all', Node('get', (('ints', tuple(range(n)), fm()),), [clone(base)]), clone(base)))
     if idx_ok:
         o = lambda: r.choice([None, None] + list(range(-n - 1, n + 2)))
         st = lambda: r.choice([None, 1, 2, -1, -2, 3])
